@@ -2,6 +2,7 @@
 //! documented results (the real crate goes through memchr's SIMD paths).
 pub trait ByteSlice {
     fn as_bytes_shim(&self) -> &[u8];
+    fn as_bytes_mut(&mut self) -> &mut [u8];
     fn last_byte(&self) -> Option<u8> {
         let b = self.as_bytes_shim();
         if b.is_empty() { None } else { Some(b[b.len() - 1]) }
@@ -27,9 +28,12 @@ pub trait ByteSlice {
 }
 impl ByteSlice for [u8] {
     fn as_bytes_shim(&self) -> &[u8] { self }
+    fn as_bytes_mut(&mut self) -> &mut [u8] { self }
 }
+
 impl ByteSlice for Vec<u8> {
     fn as_bytes_shim(&self) -> &[u8] { self }
+    fn as_bytes_mut(&mut self) -> &mut [u8] { self }
 }
 pub trait ByteVec {
     fn drain_bytes_to(&mut self, upto: usize);
